@@ -63,10 +63,11 @@ type Unit struct {
 }
 
 type Exit struct {
-	st    *State
-	panic bool
-	note  string
-	rets  []Value
+	st      *State
+	panic   bool
+	note    string
+	rets    []Value
+	runtime bool // a runtime panic site (index, slice, make, division), not a guard of the contract
 }
 
 type Kernel struct {
